@@ -58,6 +58,31 @@ PROPS["C02"] = dict(
     explanation="",
 )
 
+PROPS["C11"] = dict(
+    modules=["common", "c11"],
+    contracts=["ws.__init__", "ws.receive", "ws.send", "ws.accept", "ws.close", "ws.receive_text", "ws.receive_bytes",
+               "ws.send_text", "ws.send_bytes", "ws.iter_text", "ws.iter_bytes"],
+    canary_contracts=["ws.receive", "ws.send"],
+    refute={"quick": [3], "thorough": [2, 3, 4]},
+    native="c11",
+    level="proof",
+    trusted=["A-py-1", "A-solver", "A-pyvc"],
+    level_text="The wrapper is verified as a data structure against an abstract view: ghost automaton of the events actually "
+               "forwarded to the server, cursor into the server's event script, disconnect-delivered flag. A representation "
+               "invariant I links the two state fields to that ghost state; __init__ establishes I and every public method "
+               "is proved to require only I and to re-establish it (so any call sequence keeps I: induction over the history), "
+               "to forward only legal steps (obligation at every _send), to forward nothing when it raises, never to call the "
+               "server's receive after a disconnect was delivered, to return the script's frames in order exactly once, to "
+               "move both states forward only, and close to be idempotent. All obligations are generated from the real "
+               "methods and discharged by z3/cvc5 for every state satisfying I and every legal server script.",
+    level_note="Trusted: the server script is ASGI-legal (connect first, frames, one final disconnect: A-server) and finite; "
+               "repository asserts are enabled (no -O); await erased (one task); message dicts carry all payload keys "
+               "(a typed receive on the connect event raises KeyError natively and forwards nothing: outside C11's clauses). "
+               "WebsocketDenialResponse / websocket_session / request_response are covered by the bounded stand-in only.",
+    technique="deductive verification: representation invariant + per-method contracts on the real class, SMT (z3/cvc5)",
+    explanation="",
+)
+
 NOT_APPLICABLE = {
     "C06": "quantifies over schedules/interleavings (relay thread vs consumer vs closer, asyncio tasks vs ping timer) and is a "
            "bounded-liveness claim; contracts over a sequential, await-erased semantics cannot express an interleaving and "
